@@ -43,6 +43,10 @@ func c13Msg(token string, refused bool) *mail.Msg {
 		_ = m.To(token+"@rcpt.verif.example", token+"b@rcpt.verif.example")
 	}
 	m.Subject("subject " + token)
+	// nothing random in the content: a generated Message-ID ([A-Za-z0-9_.-]{22}) contains the token
+	// marker "tokg" about once in a million messages, which the mixing oracle would take for another
+	// message's token
+	m.SetMessageIDWithValue(token + ".mid@sender.verif.example")
 	m.SetBodyString(mail.TypeTextPlain, "body of "+token+"\r\n"+strings.Repeat("line of "+token+"\r\n", 20))
 	return m
 }
